@@ -27,7 +27,8 @@ func init() {
 			{Name: "an extracted variable is reused when named type and outer nullability agree (seeded change C03-1)", File: "v2/pkg/astnormalization/variables_extraction.go", Rule: "C03-R11", Key: "variablesExtractionVisitor.extractedVariablesContainsKey/reuse-needs-deep-type-equality",
 				Old: "v.definition.TypesAreEqualDeep(typeRef, v.extractedVariableTypeRefs[i])", New: "v.definition.TypeIsNonNull(typeRef) == v.definition.TypeIsNonNull(v.extractedVariableTypeRefs[i]) && bytes.Equal(v.definition.ResolveTypeNameBytes(typeRef), v.definition.ResolveTypeNameBytes(v.extractedVariableTypeRefs[i]))"},
 			{Name: "deep type equality compares outer nullability, list depth and name (seeded change C03-22)", File: "v2/pkg/ast/ast_type.go", Rule: "C03-R12", Key: "Document.TypesAreEqualDeep/level-by-level",
-				Old: "func (d *Document) TypesAreEqualDeep(left int, right int) bool {\n\tfor {\n", New: "func (d *Document) TypesAreEqualDeep(left int, right int) bool {\n\tif left != -1 && right != -1 {\n\t\treturn d.TypeIsNonNull(left) == d.TypeIsNonNull(right) && d.TypeNumberOfListWraps(left) == d.TypeNumberOfListWraps(right) && bytes.Equal(d.ResolveTypeNameBytes(left), d.ResolveTypeNameBytes(right))\n\t}\n\tfor {\n"},
+				Old: "func (d *Document) TypesAreEqualDeep(left int, right int) bool {\n\tfor {\n\t\tif left == -1 || right == -1 {\n\t\t\treturn false\n\t\t}\n\t\tif d.Types[left].TypeKind != d.Types[right].TypeKind {\n\t\t\treturn false\n\t\t}\n\t\tif d.Types[left].TypeKind == TypeKindNamed {\n\t\t\tleftName := d.TypeNameBytes(left)\n\t\t\trightName := d.TypeNameBytes(right)\n\t\t\treturn bytes.Equal(leftName, rightName)\n\t\t}\n\t\tleft = d.Types[left].OfType\n\t\tright = d.Types[right].OfType\n\t}\n}\n",
+				New: "func (d *Document) TypesAreEqualDeep(left int, right int) bool {\n\tif left == -1 || right == -1 {\n\t\treturn false\n\t}\n\treturn d.TypeIsNonNull(left) == d.TypeIsNonNull(right) && d.TypeNumberOfListWraps(left) == d.TypeNumberOfListWraps(right) && bytes.Equal(d.ResolveTypeNameBytes(left), d.ResolveTypeNameBytes(right))\n}\n"},
 			{Name: "walker ranges over the directives of a field with a captured slice header (reverts part of the F55 fix)", File: "v2/pkg/astvisitor/visitor.go", Rule: "C03-R10", Key: "Walker/walkField/re-reads:Fields.Directives.Refs",
 				Old: "\t\tfor idx := 0; idx < len(w.document.Fields[ref].Directives.Refs); {\n\t\t\ti := w.document.Fields[ref].Directives.Refs[idx]\n\t\t\tw.walkDirective(i, skipFor)\n\t\t\tif w.stop {\n\t\t\t\treturn\n\t\t\t}\n\t\t\tif idx < len(w.document.Fields[ref].Directives.Refs) && w.document.Fields[ref].Directives.Refs[idx] == i {\n\t\t\t\tidx++\n\t\t\t}\n\t\t}\n",
 				New: "\t\tfor _, i := range w.document.Fields[ref].Directives.Refs {\n\t\t\tw.walkDirective(i, skipFor)\n\t\t\tif w.stop {\n\t\t\t\treturn\n\t\t\t}\n\t\t}\n"},
